@@ -10,6 +10,7 @@ import IslaVerif.Driver.C15
 import IslaVerif.Driver.C05
 import IslaVerif.Driver.C11
 import IslaVerif.Driver.Sem
+import IslaVerif.Driver.C02
 namespace IslaVerif.Driver
 open IslaVerif
 
@@ -26,6 +27,7 @@ def dispatch : Sexp → Sexp
   | .list (.atom "c05" :: rest) => C05.handle rest
   | .list (.atom "c11" :: rest) => C11.handle rest
   | .list (.atom "sem" :: rest) => SemD.handle rest
+  | .list (.atom "c02" :: rest) => C02.handle rest
   | _ => .atom "bad-request"
 
 end IslaVerif.Driver
